@@ -264,8 +264,9 @@ impl TCheck for C13 {
     }
     fn prepare(&self, seed: u64, _tier: Tier, work: u64, scratch: &Path) -> Prepared {
         let mut rng = Rng::derive(seed, "c13-work", work);
-        // source kinds: 0 = memory (Vec<u8>), 1 = file; raw or decoded is decided by the hints
-        let backing = rng.below(2);
+        // source kinds: 0 = memory (Vec<u8>), 1 = file, 2 = a memory map of the file (any
+        // `AsRef<[u8]>` value converts into a `Reader`); raw or decoded is decided by the hints
+        let backing = rng.below(3);
         let comp = *rng.pick(&[Comp::None, Comp::Zstd(3), Comp::Lz4(3), Comp::Lzma(1), Comp::Zstd(3)]);
         let n = rng.range(3, 14) as usize;
         let mut contents = crate::c08::gen_contents(&mut rng, n, 3000, &[SrcKind::Cursor], comp);
@@ -321,7 +322,7 @@ impl TCheck for C13 {
                     .collect()
             })
             .collect();
-        let desc = json!({"image": gen::describe(&logical), "backing": if backing == 0 {"memory"} else {"file"},
+        let desc = json!({"image": gen::describe(&logical), "backing": (["memory", "file", "mmap"][backing as usize]),
                           "readers": readers, "programs": programs, "decode_chunk": chunk});
         let programs = Arc::new(programs);
         Prepared {
@@ -331,6 +332,15 @@ impl TCheck for C13 {
                 let mut rep = BodyReport::default();
                 let reader: jubako::Reader = if backing == 0 {
                     pack_bytes.as_ref().clone().into()
+                } else if backing == 2 {
+                    match std::fs::File::open(&pack_path).and_then(|f| unsafe { memmap2::Mmap::map(&f) }) {
+                        Ok(m) => m.into(),
+                        Err(e) => {
+                            rep.complaints.push(format!("mmap: {e}"));
+                            *slot.lock().unwrap() = rep;
+                            return;
+                        }
+                    }
                 } else {
                     match jubako::FileSource::open(&pack_path) {
                         Ok(f) => f.into(),
@@ -402,6 +412,7 @@ impl TCheck for C13 {
                 rep.interleaving = order.lock().unwrap().clone();
                 let kind = match (comp == Comp::None, backing) {
                     (true, 0) => "view_ops_on_memory_backed_content",
+                    (true, 2) => "view_ops_on_mmap_backed_content",
                     (true, _) => "view_ops_on_file_backed_content",
                     (false, _) => "view_ops_on_pack_with_background_decoded_clusters",
                 };
@@ -416,19 +427,20 @@ impl TCheck for C13 {
         crate::c07::protocol_monitor(events)
     }
     fn rule(&self) -> String {
-        "works = a seeded content pack (3..14 contents of 0..3000 bytes, 2..6 blobs per cluster so most contents do not start at offset 0 of their source; none/zstd/lz4/lzma; backed by memory or by a file) and 1..3 reader tasks, each running seeded view programs to nesting depth 3: region.stream() with seeded read sizes (0, 1, chunk-1, chunk+1, remaining, > remaining), ByteStream::from(region), get_slice, cut of cut of cut, as_slice, ByteRegion::from(slice), with size()/offset()/size_left() checked after every step against (content, begin, end[, cursor]) arithmetic on the model bytes; for compressed packs the readers race the decoder job under seeded schedules with decode chunk {1,7,64}; non-trivial = a choice point where the running task was not continued; distinct = distinct (work, decision trace). Memory- and file-backed raw contents involve no schedule; they are counted separately in probes".into()
+        "works = a seeded content pack (3..14 contents of 0..3000 bytes, 2..6 blobs per cluster so most contents do not start at offset 0 of their source; none/zstd/lz4/lzma; backed by memory, by a file or by a memory map of the file) and 1..3 reader tasks, each running seeded view programs to nesting depth 3: region.stream() with seeded read sizes (0, 1, chunk-1, chunk+1, remaining, > remaining), ByteStream::from(region), get_slice, cut of cut of cut, as_slice, ByteRegion::from(slice), with size()/offset()/size_left() checked after every step against (content, begin, end[, cursor]) arithmetic on the model bytes; for compressed packs the readers race the decoder job under seeded schedules with decode chunk {1,7,64}; non-trivial = a choice point where the running task was not continued; distinct = distinct (work, decision trace). Memory- and file-backed raw contents involve no schedule; they are counted separately in probes".into()
     }
     fn real_vs_stub(&self) -> Value {
         json!({"real": ["ByteRegion / ByteSlice / ByteStream, Region arithmetic, Source impls for Vec<u8>, FileSource and SeekableDecoder, codecs"],
                "modelled": ["Mutex/Condvar of the decoder, FileSource mutex, cluster RwLock: shuttle models"],
                "stub": ["rayon decompression pool: modelled thread per job"],
                "simulated": ["scheduling decisions (seeded)"],
-               "not_reachable": ["an mmap-backed content view: through the public API mmap is only used for in-memory cuts of metadata (directory / manifest packs), never for content regions"]})
+               "note": "jubako itself only mmaps metadata blocks >= 4 KiB; an mmap-backed *content* view is reached by handing ContentPack::new a Reader made from a memmap2::Mmap (any AsRef<[u8]> converts into a Reader)"})
     }
     fn required_probes(&self, _tier: Tier) -> Vec<&'static str> {
         vec![
             "view_ops_on_memory_backed_content",
             "view_ops_on_file_backed_content",
+            "view_ops_on_mmap_backed_content",
             "view_ops_on_pack_with_background_decoded_clusters",
             "dec_wait",
         ]
